@@ -215,7 +215,9 @@ pub fn run() -> Report {
         }
     }
     // (d) one-dimension CompactSize boundary sweeps
-    let bounds: Vec<usize> = vec![0xfc, 0xfd, 0xfe, 0xffff, 0x10000];
+    // (the CompactSize widths, and the powers of two with their neighbours: sizes at which chunked reads, batches and table
+    // sizes of an implementation end - a count of exactly 256 or 4096 is as much "any count" as 253)
+    let bounds: Vec<usize> = vec![0xfc, 0xfd, 0xfe, 0xffff, 0x10000, 127, 128, 129, 255, 256, 257, 511, 512, 513, 1023, 1024, 1025, 4095, 4096, 4097, 32_767, 32_768, 32_769];
     for &n in &bounds {
         // txs per block: n txs in total (coinbase + n-1)
         cases.push(Case { coin: "bitcoin", verify: true, txs: vec![base.clone(); n - 1], hdr: None, n_blocks: 3, label: format!("txs_per_block={:#x}", n) });
